@@ -359,6 +359,11 @@ for _f, _e in (("cfg_numopts", "h_dfcc_numopts"), ("cfg_getnopt", "h_dfcc_getnop
       label="bounded(quantifier-free twin of the loop-contract unit: option arrays of at most 3 entries; SAT back end, yields counterexamples)",
       props=["C16", "C01", "C02"], cost=5)
 
+U("dfcc_loop_cfg_indent", harness="harness/dfcc.c", entry="h_dfcc_indent", func="cfg_indent", style="S1", defs={"quick": ["-DCFGV_DFCC_INDENT"]}, cbmc=NOOOM,
+  dfcc={"enforce": ["cfg_indent"], "loops": True}, expect_canary=False, no_slice=False, require_obligations=[r"loop_invariant_step", r"loop_decreases", r"postcondition"],
+  label="proof (function contract + loop contract (invariant, frame, variant) enforced by goto-instrument --dfcc --apply-loop-contracts; EVERY depth 0 .. 2^29, quantifier-free, SAT back end; the stream is a ghost counter fed by an fprintf carrier that checks stream and format)",
+  props=["C19", "C05", "C02"], cost=10)
+
 U("dfcc_modular_cfg_num", harness="harness/dfcc.c", entry="h_dfcc_num", func="cfg_num", style="S1", defs={"quick": []}, cbmc=NOOOM, backend="z3",
   dfcc={"enforce": ["cfg_num"], "replace": ["cfg_numopts"]}, expect_canary=False, no_slice=False, require_obligations=[r"postcondition", r"precondition"],
   label="proof (contract of cfg_num enforced with the call to cfg_numopts replaced by contract::cfg_numopts: caller checked against the callee's contract, not its body; option arrays up to 1024; z3)",
